@@ -226,8 +226,15 @@ class TCPRegistryServer(RegistryServer):
 
     def _recv(self):
         sock2, _ = self.sock.accept()
-        addrinfo = sock2.getpeername()
-        data = sock2.recv(MAX_DGRAM_SIZE)
+        try:
+            # an accepted socket does not inherit the listener's timeout: without one a client that
+            # connects and sends nothing would block the registry forever
+            sock2.settimeout(self.TIMEOUT)
+            addrinfo = sock2.getpeername()
+            data = sock2.recv(MAX_DGRAM_SIZE)
+        except Exception:
+            sock2.close()
+            raise
         self._connected_sockets[addrinfo] = sock2
         return data, addrinfo
 
